@@ -53,9 +53,9 @@ mut('c01-variant-enc-pad-wrong-key', ['C01'], M,
     [("padding = pad[vsig[0]](start_byte)\n\n    if padding:\n        start_byte += len(padding)\n        chunks.append(padding)\n\n    rnbytes",
       "padding = pad['v'](start_byte)\n\n    if padding:\n        start_byte += len(padding)\n        chunks.append(padding)\n\n    rnbytes")],
     ['C01.D5'])
-mut('c01-array-dec-end-check-removed', ['C01', 'C05'], M,
+mut('c01-array-dec-end-check-removed', ['C01'], M,
     [("    if not offset == end_offset:\n        raise MarshallingError('Invalid array encoding')\n", "")],
-    ['C01.D6', 'C05'])
+    ['C01.D6'])
 mut('c01-array-dec-end-includes-len', ['C01'], M,
     [("    offset += 4                         # 4-byte data length\n    offset += len(pad[tcode](offset))  # padding length\n\n    end_offset = offset + data_len",
       "    offset += 4                         # 4-byte data length\n    end_offset = offset + data_len\n    offset += len(pad[tcode](offset))  # padding length\n")],
@@ -111,6 +111,35 @@ mut('c02-variant-two-sigs', ['C02'], M,
     [("        ct, sigFromPy(var), start_byte, lendian, oobFDs)",
       "        ct, getattr(var, 'dbusSignature', 'v'), start_byte, lendian, oobFDs)")],
     ['C02.D5'])
+
+# ---- C05 ------------------------------------------------------------------
+mut('c05-prefix-array-zero-guard-removed', ['C05'], M,
+    [("        if nbytes == 0:\n            # e.g. \"a()\": elements without content would never advance\n            raise MarshallingError('Invalid array element type: ' + tsig)\n", "")],
+    ['C05.D1'], note='pre-fix twin of fix 9e09d29')
+mut('c05-string-len-by-slice', ['C05', 'C01'], M,
+    [("    slen = struct.unpack_from(lendian and '<B' or '>B', data, offset)[0]\n    s = codecs.decode(data[offset + 1: offset + 1 + slen], 'ascii')",
+      "    slen = ord(data[offset:offset + 1] or b'\\0')\n    s = codecs.decode(data[offset + 1: offset + 1 + slen], 'ascii')")],
+    ['C05.D3', 'C01'], note='silent slice instead of bounds-checked read')
+mut('c05-find-end-no-advance', ['C05'], M,
+    [("                if depth == 0:\n                    return idx\n            idx += 1\n",
+      "                if depth == 0:\n                    return idx\n                idx += 1\n")],
+    ['C05.D1'], note='index only advances on closing brackets: unbalanced signature loops forever')
+mut('c19-gct-array-no-advance', ['C19'], M,
+    [("            ct = next(g)\n            i += len(ct)\n", "            ct = next(g)\n")],
+    ['C19'], kind='break', note='array branch no longer skips the element type: wrong split (terminates, so not C05)')
+mut('c05-unknown-type-guard-removed', ['C05'], 'txdbus/message.py',
+    [("    if messageType not in _mtype:\n        raise error.MarshallingError(\n            'Unknown Message Type: ' + str(messageType)\n        )\n", "")],
+    ['C05.D4'])
+mut('c05-struct-no-slice', ['C05', 'C01'], M,
+    [("    return unmarshal(ct[1:-1], data, offset, lendian, oobFDs)",
+      "    return unmarshal(ct, data, offset, lendian, oobFDs)")],
+    ['C05.D2', 'C01.D7'], note='unbounded recursion without progress')
+mut('ok-array-zero-guard-variant', ['C05', 'C01'], M,
+    [("        if nbytes == 0:\n", "        if nbytes <= 0:\n")], kind='benign')
+mut('ok-array-dec-empty-shortcut', ['C05', 'C01', 'C02'], M,
+    [("    end_offset = offset + data_len\n",
+      "    end_offset = offset + data_len\n\n    if data_len == 0 and tcode != '{':\n        return offset - start_offset, []\n")],
+    kind='benign', note='legitimate shortcut for empty arrays taken after the initial padding')
 
 # benign variants --------------------------------------------------------------
 mut('ok-int16-condexpr', ['C01', 'C02'], M,
